@@ -175,15 +175,22 @@ def _bisect_saturation(c, npdt, sign):
     return sign * float(np.array([b], dtype=it).view(npdt)[0])
 
 
-def raw_values(cfg, dtype, chunk, nchunks, stride, c):
+def raw_blocks(cfg, dtype, chunk, nchunks, stride, c, block):
+    """yields (raw values ascending, starts_new_sequence): first the strided float32 lattice of this chunk in cache-sized blocks, then
+    (chunk 0 only) the dense neighbourhoods and the float64 lattice as a second ascending sequence"""
     npdt = np.float32 if dtype == "float32" else np.float64
     per = 2 ** 32 // nchunks
-    k0, k1 = chunk * per, (chunk + 1) * per + stride  # one stride of overlap: monotonicity across chunk borders
     off = cfg["idx"] % stride
-    x = ordered_f32(np.arange(k0 + off, min(k1 + off, 2 ** 32), stride, dtype=np.int64))
-    x = x[np.isfinite(x)].astype(npdt)
-    extra = []
+    k0, k1 = chunk * per + off, min((chunk + 1) * per + stride + off, 2 ** 32)  # one stride of overlap: monotone across chunk borders
+    first = True
+    for b0 in range(k0, k1, stride * block):
+        x = ordered_f32(np.arange(b0, min(b0 + stride * block, k1), stride, dtype=np.int64))
+        x = x[np.isfinite(x)].astype(npdt)
+        if x.size:
+            yield x, first
+            first = False
     if chunk == 0:
+        extra = []
         pts = [0.0] + SAT_CANDIDATES + [-s for s in SAT_CANDIDATES]
         if not cfg["tensor"]:
             for sign in (1.0, -1.0):
@@ -196,10 +203,10 @@ def raw_values(cfg, dtype, chunk, nchunks, stride, c):
                 extra.append(neighbourhood(p, np.float32).astype(np.float64))
         if npdt == np.float64:
             extra.append(f64_lattice())
-    if extra:
-        x = np.concatenate([x] + extra)
+        x = np.concatenate(extra)
         x = np.unique(x[np.isfinite(x)])  # sorted ascending; -0.0 and 0.0 collapse
-    return x  # the strided lattice alone is already strictly increasing
+        for b0 in range(0, x.size, block):
+            yield x[b0:b0 + block], b0 == 0
 
 
 def transform_cells(tier):
@@ -235,11 +242,11 @@ def run_transform(cell, seed):
     feats = {"what": "transform", "cls": cfg["cls"], "param": cfg["tf"], "bounds": bdesc, "tensor_bounds": cfg["tensor"], "dtype": dtype,
              "chunk": cell["chunk"]}
     c = build_constraint(cfg, dtype)
-    xs = torch.from_numpy(raw_values(cfg, dtype, cell["chunk"], cell["nchunks"], cell["stride"], c))
     lo, hi = c.lower_bound, c.upper_bound
     bshape = torch.broadcast_shapes(lo.shape, hi.shape)
     ncol = max(1, int(np.prod(bshape))) if cfg["tensor"] else 1
-    notes = {"transform_points": int(xs.numel() * ncol), "saturated_points": 0, "interior_points": 0}
+    notes = {"transform_points": 0, "saturated_points": 0, "interior_points": 0}
+    nblocks = 0
     eps = torch.finfo(tdt).eps
     sat_thr = -math.log(4 * eps)
     fin = [t for t in (lo, hi) if torch.isfinite(t).all()]
@@ -253,8 +260,12 @@ def run_transform(cell, seed):
     block = max(1024, BLOCK // ncol)
     prev_x, prev_y = None, None
     with torch.no_grad():
-        for b0 in range(0, xs.numel(), block):
-            x = xs[b0:b0 + block]
+        for x_np, new_seq in raw_blocks(cfg, dtype, cell["chunk"], cell["nchunks"], cell["stride"], c, block):
+            x = torch.from_numpy(x_np)
+            nblocks += 1
+            notes["transform_points"] += int(x.numel() * ncol)
+            if new_seq:
+                prev_x, prev_y = None, None
             X = x.reshape(-1, *([1] * len(bshape))) if cfg["tensor"] else x
             try:
                 y = c.transform(X)
@@ -264,6 +275,18 @@ def run_transform(cell, seed):
             if y.dtype != tdt:
                 st["dtype_differs"] = 1
             yy = y.reshape(x.numel(), -1)
+            if not cfg["tensor"] and x.numel() > 1:
+                # shortcut: the whole block sits exactly on one finite bound (saturated region): inside the closed interval, constant (so
+                # monotone within the block), no interior point. A NaN makes min != max, so NaN blocks take the full path.
+                y0, y1 = float(y.min()), float(y.max())
+                if y0 == y1 and ((check_hi and y0 == float(hi)) or (check_lo and y0 == float(lo))):
+                    if prev_y is not None and float(prev_y.reshape(-1)[0]) > y0:
+                        pass  # a drop across the block border: fall through to the full path
+                    else:
+                        notes["saturated_points"] += int(x.numel())
+                        notes["saturated_blocks"] = notes.get("saturated_blocks", 0) + 1
+                        prev_x, prev_y = x[-1:], yy[-1:]
+                        continue
             # --- never NaN
             if torch.isnan(y).any() and st["nan_raw"] is None:
                 st["nan_raw"] = x[torch.isnan(yy).any(-1).nonzero()[0].item()].item()
@@ -359,7 +382,7 @@ def run_transform(cell, seed):
     for f in fails:
         f.setdefault("features", feats)
     return {"fails": fails, "sig": "transform:" + ",".join(sigs) + "|" + ",".join(sorted({f["sub"] for f in fails})), "features": feats,
-            "ops": 2 * (1 + xs.numel() // block), "notes": notes, "nontrivial": xs.numel() > 0}
+            "ops": 2 * nblocks, "notes": notes, "nontrivial": nblocks > 0}
 
 
 def _ref_derivative(cfg, lo, hi, X):
